@@ -61,35 +61,32 @@ func c11Gen(t *rapid.T) c11Case {
 	for i, n := 0, rapid.IntRange(1, 3).Draw(t, "prefix"); i < n; i++ {
 		c.Ops = append(c.Ops, c11Op{K: "issue", I: rapid.IntRange(0, c.Issuers-1).Draw(t, "i"), M: rapid.SampledFrom([]string{"ldp", "ldp", "jwt"}).Draw(t, "fmt")})
 	}
-	n := rapid.IntRange(2, 14).Draw(t, "n")
 	kinds := []string{"issue", "issue", "issue", "entry", "jump", "revoke", "revoke", "revoke", "revoke", "serve", "serve",
 		"verifyA", "verifyA", "verifyB", "verifyB", "verifyB", "verifyB", "verifyB", "verifyB", "ageIssuer", "issueForged", "sc-forged-refresh", "sc-rollover", "fillpages"}
 	forged := []string{"http500", "neterr", "notjson", "unsigned", "zerobits", "zerobits", "allbits", "wrongsubject", "jsonmut"}
-	mut := func(op *c11Op) {
+	mut := func(t *rapid.T, op *c11Op) {
 		if op.M == "jsonmut" {
 			m := jsonmut.Gen(t, "mut", nil, []string{"encodedList", "statusPurpose", "credentialSubject", "proof", "jws", "expirationDate", "issuer"})
 			op.Mut = &m
 			op.S = rapid.Bool().Draw(t, "subjectOnly")
 		}
 	}
-	for len(c.Ops) < 20 && n > 0 {
-		n--
+	// a step is one op or a short scenario; steps are drawn as a slice so that rapid can delete them while shrinking
+	step := rapid.Custom(func(t *rapid.T) []c11Op {
 		op := c11Op{K: rapid.SampledFrom(kinds).Draw(t, "k")}
 		switch op.K {
 		case "sc-forged-refresh":
 			// revoke, let the remote verifier see it, then a due refresh meets a forged / unavailable list
 			sel := rapid.Uint32().Draw(t, "c")
 			bad := c11Op{K: "verifyB", C: sel, M: rapid.SampledFrom(forged).Draw(t, "m"), A: rapid.SampledFrom([]string{"old", "expired"}).Draw(t, "age")}
-			mut(&bad)
-			c.Ops = append(c.Ops, c11Op{K: "revoke", C: sel}, c11Op{K: "verifyB", C: sel, M: "honest", A: "old"}, bad)
-			continue
+			mut(t, &bad)
+			return []c11Op{{K: "revoke", C: sel}, {K: "verifyB", C: sel, M: "honest", A: "old"}, bad}
 		case "sc-rollover":
 			// fill the issuer's page, issue across the page end, revoke the newest credential and look at it from afar
 			i := rapid.IntRange(0, c.Issuers-1).Draw(t, "i")
-			c.Ops = append(c.Ops, c11Op{K: "jump", I: i, N: rapid.IntRange(0, 1).Draw(t, "left")},
-				c11Op{K: "issue", I: i, M: "ldp"}, c11Op{K: "issue", I: i, M: rapid.SampledFrom([]string{"ldp", "jwt"}).Draw(t, "fmt")},
-				c11Op{K: "revoke", L: true}, c11Op{K: "verifyB", L: true, M: "honest", A: "old"})
-			continue
+			return []c11Op{{K: "jump", I: i, N: rapid.IntRange(0, 1).Draw(t, "left")},
+				{K: "issue", I: i, M: "ldp"}, {K: "issue", I: i, M: rapid.SampledFrom([]string{"ldp", "jwt"}).Draw(t, "fmt")},
+				{K: "revoke", L: true}, {K: "verifyB", L: true, M: "honest", A: "old"}}
 		}
 		switch op.K {
 		case "issue":
@@ -110,7 +107,7 @@ func c11Gen(t *rapid.T) c11Case {
 			op.C = rapid.Uint32().Draw(t, "c")
 			op.M = rapid.SampledFrom(c11NetModes).Draw(t, "m")
 			op.A = rapid.SampledFrom([]string{"", "", "old", "old", "expired"}).Draw(t, "age")
-			mut(&op)
+			mut(t, &op)
 		case "serve":
 			op.C = rapid.Uint32().Draw(t, "c")
 			op.N = rapid.IntRange(0, 5).Draw(t, "unknown") // 0: a page that does not exist
@@ -122,7 +119,13 @@ func c11Gen(t *rapid.T) c11Case {
 			op.C = rapid.Uint32().Draw(t, "c")
 			op.N = rapid.IntRange(0, 2).Draw(t, "variant")
 		}
-		c.Ops = append(c.Ops, op)
+		return []c11Op{op}
+	})
+	for _, st := range rapid.SliceOfN(step, 2, 14).Draw(t, "steps") {
+		if len(c.Ops)+len(st) > 20 {
+			break
+		}
+		c.Ops = append(c.Ops, st...)
 	}
 	return c
 }
